@@ -73,8 +73,9 @@ def gen(rng: random.Random, n: int) -> List[Dict[str, Any]]:
             ns = rng.choice([[4], [3, 2], [1], [8]])
             bt = rng.choice([[], [3], [2, 3], [2, 1, 4]])
             bias = rng.random() < 0.6
-            out.append({"cfg": {"op": op, "batch": bt, "norm_shape": ns, "affine": True, "bias": bias, "eps": 1e-5},
-                        "c": {"op": op, "normsize": prod(ns), "numel": prod(bt) * prod(ns), "bias": bias and op == "layer_norm"}})
+            bias_only = op == "layer_norm" and rng.random() < 0.25
+            out.append({"cfg": {"op": op, "batch": bt, "norm_shape": ns, "affine": "bias_only" if bias_only else True, "bias": bias or bias_only, "eps": 1e-5},
+                        "c": {"op": op, "normsize": prod(ns), "numel": prod(bt) * prod(ns), "bias": (bias or bias_only) and op == "layer_norm", "weight": not bias_only}})
         else:
             t = rng.choice([(1, 2), (1, 1), (2, 1), (1, 8), (3, 2)])
             out.append({"cfg": {"op": "residual_add", "tau": t[0] / t[1]}, "c": {"op": "residual_add", "tau2": [t[0] * t[0], t[1] * t[1]]}})
@@ -162,7 +163,7 @@ def measured_counts(item: Dict[str, Any]) -> Dict[str, Fraction]:
         w = one(*ns).requires_grad_(True)
         if op == "layer_norm":
             b = torch.zeros(*ns, dtype=torch.float64, requires_grad=True)
-            y = F.layer_norm(x, ns, w, b)
+            y = F.layer_norm(x, ns, w if c.get("weight", True) else None, b)
             (gb,) = torch.autograd.grad(y, [b], torch.ones_like(y))
             R = {"weight": Fraction(y.numel(), w.numel()), "bias": fr(gb.flatten()[0])}
         else:
